@@ -36,7 +36,11 @@ import (
 	"golang.org/x/tools/go/ssa/ssautil"
 )
 
-const modPath = "github.com/openacid/low"
+// the module under analysis (overridable with -mod: the translator's own tests run it on testdata/fx)
+var modPath = "github.com/openacid/low"
+
+// its packages that are loaded (module-internal dependencies are followed)
+var pkgNames = []string{"bitmap", "bmtree", "bitstr", "bitword", "sigbits"}
 
 // the functions C19 lists (short names: module prefix stripped), by package
 var listed = []string{
@@ -54,10 +58,18 @@ var listed = []string{
 var widened = []string{
 	"bitmap.Get", "bitmap.Get1", "bitmap.SafeGet", "bitmap.SafeGet1",
 	"bitmap.IndexRank64", "bitmap.IndexRank128", "bitmap.IndexSelect32", "bitmap.IndexSelect32R64",
-	"bitmap.Of", "bitmap.OfMany", "bitmap.Join",
+	"bitmap.Of", "bitmap.OfMany", "bitmap.Join", "bitmap.Fmt",
 	"bmtree.Height", "bmtree.NewPath", "bmtree.PathOf", "bmtree.PathsOf", "bmtree.PathBits", "bmtree.PathMask",
 	"bmtree.PathHeight", "bmtree.PathLen", "bmtree.PathStr",
 	"bitstr.New", "bitstr.Len", "sigbits.New",
+}
+
+// widening, second kind: the mutating types of package bitmap that users give ONE PER GOROUTINE (a Builder, a
+// TailBitmap) while sharing the inputs.  For these the claim is confinement: every write goes through the
+// receiver (or fresh memory); nothing else that is shared is written.
+var mutators = []string{
+	"bitmap.NewBuilder", "bitmap.Builder.Extend", "bitmap.Builder.Set",
+	"bitmap.NewTailBitmap", "bitmap.TailBitmap.Set", "bitmap.TailBitmap.Compact", "bitmap.TailBitmap.Get", "bitmap.TailBitmap.Get1",
 }
 
 // functions outside the module that may receive a shared pointer: they only read through it
@@ -68,6 +80,8 @@ var readOnlyExternal = []string{
 	"strings.", "strconv.", "math/bits.", "math.", "unicode/utf8.",
 	"fmt.Sprintf", "fmt.Sprint", "fmt.Sprintln", "fmt.Errorf",
 	"runtime.KeepAlive",
+	// reflection used for READING a value (bitmap.Fmt): not Set*, not Addr, not Elem of a pointer
+	"reflect.ValueOf", "reflect.TypeOf", "reflect.Value.Kind", "reflect.Value.Len", "reflect.Value.Index", "reflect.Value.Interface",
 	"github.com/openacid/must", // the contract package: (enabled|disabled).Be methods compare their arguments
 }
 
@@ -374,28 +388,58 @@ func (a *analysis) rootsOf1(v ssa.Value) rootset {
 // loadRoots: roots of a pointer-like value loaded from *addr.
 func (a *analysis) loadRoots(fn *ssa.Function, addr ssa.Value) rootset {
 	out := rootset{}
+	field := -1
+	var ftype types.Type
+	if fa, ok := addr.(*ssa.FieldAddr); ok {
+		field, ftype = fa.Field, fa.X.Type()
+	}
 	for r := range a.rootsOf(addr) {
 		if r.k != kFresh {
 			out.add(r) // memory reachable from r
 			continue
 		}
-		out.addAll(a.contentRoots(fn, r.site))
+		out.addAll(a.contentRootsField(r.site, field, ftype))
 	}
 	return out
 }
 
-// contentRoots: roots of the pointer-like values stored (in fn) into the fresh allocation site.
+// contentRoots: roots of the pointer-like values stored into the fresh allocation site (any field).
 func (a *analysis) contentRoots(fn *ssa.Function, site ssa.Value) rootset {
+	return a.contentRootsField(site, -1, nil)
+}
+
+// contentRootsField: ... restricted, when the load is of field number [field] of a struct of type [ftype],
+// to the stores into that same field (stores whose address is not a field address of that type count always).
+func (a *analysis) contentRootsField(site ssa.Value, field int, ftype types.Type) rootset {
 	out := rootset{}
 	for _, st := range a.storesInto(site) {
-		if pointerLike(st.Val.Type()) {
-			out.addAll(a.rootsOf(st.Val))
+		if !pointerLike(st.Val.Type()) {
+			continue
 		}
+		if field >= 0 {
+			if fa, ok := st.Addr.(*ssa.FieldAddr); ok && types.Identical(fa.X.Type(), ftype) && fa.Field != field {
+				continue
+			}
+		}
+		out.addAll(a.rootsOf(st.Val))
 	}
-	if a.isEscaped(site) {
+	if a.isEscaped(site) && sitePointsToPointers(site) {
 		out.add(root{k: kUnknown, why: "loaded from a local whose address escapes"})
 	}
 	return out
+}
+
+// does the memory allocated at the site hold pointer-like values at all?
+func sitePointsToPointers(site ssa.Value) bool {
+	switch t := site.Type().Underlying().(type) {
+	case *types.Pointer:
+		return pointerLike(t.Elem())
+	case *types.Slice:
+		return pointerLike(t.Elem())
+	case *types.Map:
+		return pointerLike(t.Elem()) || pointerLike(t.Key())
+	}
+	return true
 }
 
 func siteOwner(site ssa.Value) *ssa.Function {
@@ -547,8 +591,8 @@ func (a *analysis) callResultRoots(c *ssa.Call) rootset {
 }
 
 func allowListed(fn *ssa.Function) bool {
-	n := fn.String() // e.g. bytes.Compare, (*strings.Builder).WriteString, (github.com/openacid/must/enabled.be).True
-	n = strings.TrimLeft(n, "(*")
+	// e.g. bytes.Compare, strings.Builder.WriteString, github.com/openacid/must/enabled.be.True, reflect.Value.Kind
+	n := short(fn.String())
 	for _, p := range readOnlyExternal {
 		if strings.HasPrefix(n, p) {
 			return true
@@ -751,7 +795,8 @@ func (a *analysis) prepare(fn *ssa.Function) {
 }
 
 // escaping fresh sites: a local whose address (or a pointer derived from it) is stored, passed to a call,
-// captured, returned or boxed may be written elsewhere; loads from it then also yield "unknown".
+// sent or boxed may be written elsewhere; loads from it then also yield "unknown".  (Returning it does not
+// count: nothing is loaded in this activation after the return.  Capture by a closure is followed exactly.)
 func (a *analysis) computeEscapes(fn *ssa.Function) {
 	esc := a.escaped[fn]
 	if esc == nil {
@@ -772,13 +817,15 @@ func (a *analysis) computeEscapes(fn *ssa.Function) {
 		for _, ins := range b.Instrs {
 			switch ins := ins.(type) {
 			case *ssa.Store:
-				mark(ins.Val)
+				// stored into memory that is shared or has itself escaped (a local container is followed exactly)
+				for r := range a.rootsOf(ins.Addr) {
+					if r.k != kFresh || a.isEscaped(r.site) {
+						mark(ins.Val)
+						break
+					}
+				}
 			case *ssa.MakeInterface:
 				mark(ins.X)
-			case *ssa.Return:
-				for _, x := range ins.Results {
-					mark(x)
-				}
 			case *ssa.Send:
 				mark(ins.X)
 			case *ssa.MapUpdate:
@@ -819,29 +866,67 @@ func coqBool(b bool) string {
 	return "false"
 }
 
-func main() {
-	out := flag.String("o", "", "output Effects.v (default stdout)")
-	report := flag.String("report", "", "human-readable report file (function + source position of every shared write)")
-	tags := flag.String("tags", "verif", "build tags")
-	flag.Parse()
+func main() { os.Exit(run(os.Args[1:])) }
+
+func splitList(s string) []string {
+	var l []string
+	for _, x := range strings.Split(s, ",") {
+		if x = strings.TrimSpace(x); x != "" {
+			l = append(l, x)
+		}
+	}
+	return l
+}
+
+func run(args []string) int {
+	fs := flag.NewFlagSet("effects", flag.ContinueOnError)
+	out := fs.String("o", "", "output Effects.v (default stdout)")
+	report := fs.String("report", "", "human-readable report file (function + source position of every shared write)")
+	tags := fs.String("tags", "verif", "build tags")
+	dir := fs.String("dir", "", "directory to load the packages from (default: current directory)")
+	mod := fs.String("mod", "", "module path (default github.com/openacid/low)")
+	pk := fs.String("pkgs", "", "comma-separated package names inside the module (default: the five packages of C19)")
+	li := fs.String("listed", "", "comma-separated entry functions replacing the listed ones (tests)")
+	wi := fs.String("widened", "", "comma-separated entry functions replacing the widened ones (tests)")
+	mu := fs.String("mutators", "", "comma-separated entry functions replacing the mutators (tests)")
+	if err := fs.Parse(args); err != nil {
+		return 2
+	}
+	if *mod != "" {
+		modPath = *mod
+		listed, widened, mutators = nil, nil, nil
+	}
+	if *pk != "" {
+		pkgNames = splitList(*pk)
+	}
+	if *li != "" {
+		listed = splitList(*li)
+	}
+	if *wi != "" {
+		widened = splitList(*wi)
+	}
+	if *mu != "" {
+		mutators = splitList(*mu)
+	}
 
 	cfg := &packages.Config{
 		Mode: packages.NeedName | packages.NeedFiles | packages.NeedCompiledGoFiles | packages.NeedImports |
 			packages.NeedDeps | packages.NeedTypes | packages.NeedSyntax | packages.NeedTypesInfo | packages.NeedTypesSizes | packages.NeedModule,
 		BuildFlags: []string{"-tags=" + *tags},
 		Env:        os.Environ(),
+		Dir:        *dir,
 	}
 	var pats []string
-	for _, p := range []string{"bitmap", "bmtree", "bitstr", "bitword", "sigbits"} {
+	for _, p := range pkgNames {
 		pats = append(pats, modPath+"/"+p)
 	}
 	pkgs, err := packages.Load(cfg, pats...)
 	if err != nil {
 		fmt.Fprintln(os.Stderr, "effects: load:", err)
-		os.Exit(2)
+		return 2
 	}
 	if packages.PrintErrors(pkgs) > 0 {
-		os.Exit(2)
+		return 2
 	}
 	modDir := ""
 	// module-internal dependencies of the five packages get function bodies too
@@ -884,6 +969,39 @@ func main() {
 	for fn := range ssautil.AllFunctions(prog) {
 		if inModule(fn) && hasBody(fn) {
 			a.fns = append(a.fns, fn)
+		}
+	}
+	// methods of every named type of the module packages, whether or not anything refers to them
+	have := map[*ssa.Function]bool{}
+	for _, fn := range a.fns {
+		have[fn] = true
+	}
+	var addFn func(fn *ssa.Function)
+	addFn = func(fn *ssa.Function) {
+		if fn == nil || have[fn] || !inModule(fn) || !hasBody(fn) {
+			return
+		}
+		have[fn] = true
+		a.fns = append(a.fns, fn)
+		for _, g := range fn.AnonFuncs {
+			addFn(g)
+		}
+	}
+	for _, p := range prog.AllPackages() {
+		if !(p.Pkg.Path() == modPath || strings.HasPrefix(p.Pkg.Path(), modPath+"/")) {
+			continue
+		}
+		for _, m := range p.Members {
+			tn, ok := m.(*ssa.Type)
+			if !ok {
+				continue
+			}
+			for _, T := range []types.Type{tn.Type(), types.NewPointer(tn.Type())} {
+				ms := prog.MethodSets.MethodSet(T)
+				for i := 0; i < ms.Len(); i++ {
+					addFn(prog.MethodValue(ms.At(i)))
+				}
+			}
 		}
 	}
 	sort.Slice(a.fns, func(i, j int) bool { return a.fns[i].String() < a.fns[j].String() })
@@ -959,10 +1077,12 @@ func main() {
 		analysed, missing              []string
 		reachable                      map[*ssa.Function]bool
 		writes, unclassified, callrows []string
+		recvWrites                     []string
+		retShared                      []string
 		greads                         map[*ssa.Global]bool
 		rep                            []string
 	}
-	doGroup := func(name string, want []string) *group {
+	doGroup := func(name string, want []string, recvOK bool) *group {
 		g := &group{name: name, want: want, reachable: map[*ssa.Function]bool{}, greads: map[*ssa.Global]bool{}}
 		for _, n := range want {
 			fn := byName[n]
@@ -975,6 +1095,21 @@ func main() {
 				g.reachable[f] = true
 				for gl := range a.greads[f] {
 					g.greads[gl] = true
+				}
+			}
+			// results that alias something shared: a pointer-like result whose memory is not fresh
+			var rr []string
+			for r := range a.ret[fn] {
+				if r.k != kFresh {
+					rr = append(rr, rootStr(fn, r))
+				}
+			}
+			sort.Strings(rr)
+			for _, d := range rr {
+				g.retShared = append(g.retShared, fmt.Sprintf("{| w_entry := %s; w_fn := %s; w_pos := %s; w_kind := %s; w_root := %s; w_chain := %s |}",
+					coqStr(n), coqStr(n), coqStr(rel(fn.Pos())), coqStr("Return"), coqStr(d), coqStr("")))
+				if n != "sigbits.New" { // documented: the SigBits value keeps the caller's key slice (Properties/C19.v allows exactly this one)
+					g.rep = append(g.rep, fmt.Sprintf("RESULT-ALIASES %s: a result of %s (%s) points into %s", n, n, rel(fn.Pos()), d))
 				}
 			}
 			var keys []condKey
@@ -999,9 +1134,12 @@ func main() {
 				if chain != "" {
 					line += " (via " + chain + ")"
 				}
+				viaRecv := recvOK && fn.Signature.Recv() != nil && k.r.k == kParam && k.r.fn == fn && k.r.idx == 0
 				if strings.HasPrefix(k.e.kind, "extcall:") || strings.HasPrefix(k.e.kind, "dyncall:") {
 					g.unclassified = append(g.unclassified, row)
 					g.rep = append(g.rep, "UNCLASSIFIED "+line)
+				} else if viaRecv {
+					g.recvWrites = append(g.recvWrites, row)
 				} else {
 					g.writes = append(g.writes, row)
 					g.rep = append(g.rep, "SHARED-WRITE "+line)
@@ -1010,8 +1148,9 @@ func main() {
 		}
 		return g
 	}
-	gl := doGroup("listed", listed)
-	gw := doGroup("widened", widened)
+	gl := doGroup("listed", listed, false)
+	gw := doGroup("widened", widened, false)
+	gm := doGroup("mutators", mutators, true)
 
 	// writers of globals (over ALL functions of the loaded module packages)
 	writers := map[*ssa.Global]map[*ssa.Function]bool{}
@@ -1101,7 +1240,7 @@ func main() {
 			}
 		}
 	}
-	allGlobals := globalsOf(gl.greads, gw.greads, pkgGlobals)
+	allGlobals := globalsOf(gl.greads, gw.greads, gm.greads, pkgGlobals)
 	for _, g := range allGlobals {
 		for f := range writers[g] {
 			addNeed(f)
@@ -1147,6 +1286,7 @@ func main() {
 		w("Definition %scalls : list (string * list string) :=\n  %s.\n", pfx, coqList(rows))
 		w("Definition %sshared_writes : list swrite :=\n  %s.\n", pfx, coqList(g.writes))
 		w("Definition %sunclassified : list swrite :=\n  %s.\n", pfx, coqList(g.unclassified))
+		w("Definition %sresults_shared : list swrite :=\n  %s.\n", pfx, coqList(g.retShared))
 		var inMod, ext []string
 		for _, gv := range globalsOf(g.greads) {
 			if gv.Pkg != nil && (gv.Pkg.Pkg.Path() == modPath || strings.HasPrefix(gv.Pkg.Pkg.Path(), modPath+"/")) {
@@ -1160,6 +1300,9 @@ func main() {
 	}
 	emitGroup(gl, "")
 	emitGroup(gw, "w_")
+	emitGroup(gm, "m_")
+	w("(** writes of the mutators that go through their receiver (allowed: one receiver per goroutine) *)\n")
+	w("Definition m_receiver_writes : list swrite :=\n  %s.\n\n", coqList(gm.recvWrites))
 	w("(** ---- package-level variables: who writes them *)\n")
 	var pgl []string
 	for _, g := range globalsOf(pkgGlobals) {
@@ -1185,11 +1328,11 @@ func main() {
 		if string(old) != sb.String() {
 			if err := os.MkdirAll(filepath.Dir(*out), 0o755); err != nil {
 				fmt.Fprintln(os.Stderr, err)
-				os.Exit(2)
+				return 2
 			}
 			if err := os.WriteFile(*out, []byte(sb.String()), 0o644); err != nil {
 				fmt.Fprintln(os.Stderr, err)
-				os.Exit(2)
+				return 2
 			}
 		}
 	}
@@ -1202,10 +1345,30 @@ func main() {
 		rep = append(rep, "MISSING widened function "+m+" not found in the source")
 	}
 	rep = append(rep, gw.rep...)
+	for _, m := range gm.missing {
+		rep = append(rep, "MISSING mutator "+m+" not found in the source")
+	}
+	rep = append(rep, gm.rep...)
+	// the same rule as Spec/EffectTypes.v init_only (the Coq side decides; this is only for the report)
+	var initOnly func(f *ssa.Function, depth int) bool
+	initOnly = func(f *ssa.Function, depth int) bool {
+		if isInit(f) {
+			return true
+		}
+		if depth > len(a.fns) || exported(f) || addrTaken[f] {
+			return false
+		}
+		for c := range callers[f] {
+			if !initOnly(c, depth+1) {
+				return false
+			}
+		}
+		return true
+	}
 	for _, g := range allGlobals {
 		for f := range writers[g] {
-			if !isInit(f) {
-				rep = append(rep, fmt.Sprintf("GLOBAL-WRITER %s is written by %s (%s)", short(g.String()), short(f.String()), rel(f.Pos())))
+			if !initOnly(f, 0) {
+				rep = append(rep, fmt.Sprintf("GLOBAL-WRITER %s is written by %s (%s), which does not run from init alone", short(g.String()), short(f.String()), rel(f.Pos())))
 			}
 		}
 	}
@@ -1217,6 +1380,7 @@ func main() {
 	if *report != "" {
 		os.WriteFile(*report, []byte(txt), 0o644)
 	}
-	fmt.Fprintf(os.Stderr, "effects: %d functions, %d listed (%d missing), %d reachable, %d shared writes, %d unclassified; widened: %d shared writes, %d unclassified\n",
-		len(a.fns), len(gl.analysed), len(gl.missing), len(gl.reachable), len(gl.writes), len(gl.unclassified), len(gw.writes), len(gw.unclassified))
+	fmt.Fprintf(os.Stderr, "effects: %d functions, %d listed (%d missing), %d reachable, %d shared writes, %d unclassified; widened: %d shared writes, %d unclassified; mutators: %d writes through the receiver, %d other shared writes\n",
+		len(a.fns), len(gl.analysed), len(gl.missing), len(gl.reachable), len(gl.writes), len(gl.unclassified), len(gw.writes), len(gw.unclassified), len(gm.recvWrites), len(gm.writes))
+	return 0
 }
